@@ -2,6 +2,9 @@
   C14 — helper lemmas for the feed-parser models.
 -/
 import ClairModel.Model.FeedSeverity
+import ClairModel.Model.FeedFlat
+import ClairModel.Model.FeedOval
+import ClairModel.Model.FeedOsv
 
 namespace ClairModel.Feeds
 
@@ -115,5 +118,201 @@ theorem rate_lt (bands : List (String × Nat × Nat)) (n k v : Nat)
     split at h
     · cases h; exact hb _ (List.mem_cons_self ..)
     · exact ih (fun b hb' => hb b (List.mem_cons_of_mem _ hb')) h
+
+/-! ### flat formats: what a document states -/
+
+/-- The (package, fixed version, identifier) triples an Alpine secdb states, in document order. -/
+def secdbStated (pkgs : List SecdbPkg) : List (String × String × String) :=
+  pkgs.flatMap fun p => p.secfixes.flatMap fun fx => fx.2.map fun id => (p.name, fx.1, id)
+
+/-- One stated entry of a Debian tracker document whose release is known. -/
+structure DebStated where
+  src : String
+  id : String
+  desc : String
+  dist : String
+  fixed : String
+  urgency : String
+deriving DecidableEq, Repr
+
+/-- The entries a Debian tracker document states for known releases, in document order. -/
+def debStated (known : List (String × String)) (data : List (String × List DebVuln)) : List DebStated :=
+  data.flatMap fun src => src.2.flatMap fun v => v.releases.filterMap fun r =>
+    (getDist known r.release).map fun d => { src := src.1, id := v.id, desc := v.desc, dist := d, fixed := r.fixed, urgency := r.urgency }
+
+/-- The (update, package) pairs an updateinfo document states, in document order. -/
+def awsStated (ups : List AlasUpdate) : List (AlasUpdate × AlasPkg) :=
+  ups.flatMap fun u => u.pkgs.map fun p => (u, p)
+
+/-! ### OVAL: the criteria walk -/
+
+/-- `x` is a criterion of some node of the tree (any depth). -/
+inductive Occurs (x : Criterion) : Criteria → Prop
+  | here {subs : List Criteria} {leaves : List Criterion} : x ∈ leaves → Occurs x (.node subs leaves)
+  | there {subs : List Criteria} {leaves : List Criterion} {c : Criteria} : c ∈ subs → Occurs x c → Occurs x (.node subs leaves)
+
+mutual
+/-- Number of criterions in the tree. -/
+def critCount : Criteria → Nat
+  | .node subs leaves => critCountList subs + leaves.length
+def critCountList : List Criteria → Nat
+  | [] => 0
+  | c :: cs => critCount c + critCountList cs
+end
+
+mutual
+theorem walk_mem (x : Criterion) : ∀ c, x ∈ walk c ↔ Occurs x c
+  | .node subs leaves => by
+    simp only [walk, List.mem_append]
+    constructor
+    · rintro (h | h)
+      · obtain ⟨c, hc, ho⟩ := (walkList_mem x subs).1 h
+        exact .there hc ho
+      · exact .here h
+    · intro h
+      cases h with
+      | here h => exact Or.inr h
+      | there hc ho => exact Or.inl ((walkList_mem x subs).2 ⟨_, hc, ho⟩)
+theorem walkList_mem (x : Criterion) : ∀ cs, x ∈ walkList cs ↔ ∃ c ∈ cs, Occurs x c
+  | [] => by simp [walkList]
+  | c :: cs => by
+    simp only [walkList, List.mem_append, walk_mem x c, walkList_mem x cs, List.mem_cons]
+    constructor
+    · rintro (h | ⟨c', hc', ho⟩)
+      · exact ⟨c, Or.inl rfl, h⟩
+      · exact ⟨c', Or.inr hc', ho⟩
+    · rintro ⟨c', (rfl | hc'), ho⟩
+      · exact Or.inl ho
+      · exact Or.inr ⟨c', hc', ho⟩
+end
+
+mutual
+theorem walk_length : ∀ c, (walk c).length = critCount c
+  | .node subs leaves => by simp [walk, critCount, walkList_length subs]
+theorem walkList_length : ∀ cs, (walkList cs).length = critCountList cs
+  | [] => rfl
+  | c :: cs => by simp [walkList, critCountList, walk_length c, walkList_length cs]
+end
+
+/-! ### OVAL: what the walkers return -/
+
+/-- The criterions that resolve to a package (name, optional state, var_ref), in order. -/
+def resolvedLeaves (tk ok sk : String) (root : OvalRoot) (cris : List Criterion) : List (String × Option OvalState × String) :=
+  cris.filterMap fun c =>
+    match resolveLeaf tk ok sk root c with
+    | .pkg n st vr => some (n, st, vr)
+    | _ => none
+
+/-- The criterion does not reference a test of the wanted kind that lacks an
+    `<object>` (the schema requires one; the walkers return an error for it). -/
+def leafOk (tk ok sk : String) (root : OvalRoot) (c : Criterion) : Bool :=
+  match resolveLeaf tk ok sk root c with
+  | .malformed => false
+  | _ => true
+
+/-- `enabledModules` with the default empty module. -/
+def modulesOf (cris : List Criterion) : List String :=
+  if (enabledModules cris).isEmpty then [""] else enabledModules cris
+
+theorem rpmLeaves_eq (root : OvalRoot) (mods : List String) (protos : List Vuln) :
+    ∀ (cris : List Criterion),
+    (∀ c ∈ cris, leafOk "rpminfo_test" "rpminfo_object" "rpminfo_state" root c = true) →
+    rpmLeaves root mods protos cris =
+      some ((resolvedLeaves "rpminfo_test" "rpminfo_object" "rpminfo_state" root cris).flatMap fun l => rpmEmit mods protos l.1 l.2.1)
+  | [], _ => rfl
+  | c :: cs, h => by
+    have hc := h c (List.mem_cons_self ..)
+    have ih := rpmLeaves_eq root mods protos cs (fun c' hc' => h c' (List.mem_cons_of_mem _ hc'))
+    simp only [rpmLeaves, resolvedLeaves, List.filterMap_cons]
+    unfold leafOk at hc
+    cases hr : resolveLeaf "rpminfo_test" "rpminfo_object" "rpminfo_state" root c with
+    | malformed => rw [hr] at hc; simp at hc
+    | skip => simpa [resolvedLeaves] using ih
+    | pkg n st vr => simp [ih, resolvedLeaves]
+
+/-- The vulnerabilities one definition states, read flatly: prototypes of the
+    definition × package criterions × enabled modules. -/
+def rpmDefSpec (root : OvalRoot) (proto : ProtoFn) (d : OvalDef) : List Vuln :=
+  match proto d with
+  | none => []
+  | some ps =>
+    (resolvedLeaves "rpminfo_test" "rpminfo_object" "rpminfo_state" root (walk d.criteria)).flatMap fun l =>
+      (modulesOf (walk d.criteria)).flatMap fun m => ps.map fun p => rpmVuln p l.1 l.2.1 m
+
+theorem rpmDef_eq (root : OvalRoot) (proto : ProtoFn) (d : OvalDef)
+    (h : ∀ c ∈ walk d.criteria, leafOk "rpminfo_test" "rpminfo_object" "rpminfo_state" root c = true) :
+    rpmDef root proto d = some (rpmDefSpec root proto d) := by
+  unfold rpmDef rpmDefSpec
+  cases proto d with
+  | none => rfl
+  | some ps =>
+    simp only
+    rw [rpmLeaves_eq root _ ps _ h]
+    simp [rpmEmit, modulesOf]
+
+theorem rpmDefsToVulns_eq (root : OvalRoot) (proto : ProtoFn) :
+    ∀ (defs : List OvalDef),
+    (∀ d ∈ defs, ∀ c ∈ walk d.criteria, leafOk "rpminfo_test" "rpminfo_object" "rpminfo_state" root c = true) →
+    rpmDefsToVulns root proto defs = some (defs.flatMap (rpmDefSpec root proto))
+  | [], _ => rfl
+  | d :: ds, h => by
+    simp only [rpmDefsToVulns, rpmDef_eq root proto d (h d (List.mem_cons_self ..)),
+      rpmDefsToVulns_eq root proto ds (fun d' hd' => h d' (List.mem_cons_of_mem _ hd'))]
+    simp
+
+theorem dpkgLeaves_eq (root : OvalRoot) (protos : List Vuln) :
+    ∀ (cris : List Criterion),
+    (∀ c ∈ cris, leafOk "dpkginfo_test" "dpkginfo_object" "dpkginfo_state" root c = true) →
+    dpkgLeaves root protos cris =
+      some ((resolvedLeaves "dpkginfo_test" "dpkginfo_object" "dpkginfo_state" root cris).flatMap fun l =>
+        dpkgEmit protos (dpkgNames root l.1 l.2.2) l.2.1)
+  | [], _ => rfl
+  | c :: cs, h => by
+    have hc := h c (List.mem_cons_self ..)
+    have ih := dpkgLeaves_eq root protos cs (fun c' hc' => h c' (List.mem_cons_of_mem _ hc'))
+    simp only [dpkgLeaves, resolvedLeaves, List.filterMap_cons]
+    unfold leafOk at hc
+    cases hr : resolveLeaf "dpkginfo_test" "dpkginfo_object" "dpkginfo_state" root c with
+    | malformed => rw [hr] at hc; simp at hc
+    | skip => simpa [resolvedLeaves] using ih
+    | pkg n st vr => simp [ih, resolvedLeaves]
+
+/-- The vulnerabilities one dpkg definition states: prototypes × package
+    criterions whose state (if any) has a valid version × names of the criterion. -/
+def dpkgDefSpec (root : OvalRoot) (proto : ProtoFn) (d : OvalDef) : List Vuln :=
+  match proto d with
+  | none => []
+  | some ps =>
+    ((resolvedLeaves "dpkginfo_test" "dpkginfo_object" "dpkginfo_state" root (walk d.criteria)).filter
+        fun l => dpkgStateOk l.2.1).flatMap fun l =>
+      ps.flatMap fun p => (dpkgNames root l.1 l.2.2).map fun n => dpkgVuln p n l.2.1
+
+theorem dpkgDef_eq (root : OvalRoot) (proto : ProtoFn) (d : OvalDef)
+    (h : ∀ c ∈ walk d.criteria, leafOk "dpkginfo_test" "dpkginfo_object" "dpkginfo_state" root c = true) :
+    dpkgDef root proto d = some (dpkgDefSpec root proto d) := by
+  unfold dpkgDef dpkgDefSpec
+  cases proto d with
+  | none => rfl
+  | some ps =>
+    simp only
+    rw [dpkgLeaves_eq root ps _ h]
+    congr 1
+    generalize resolvedLeaves "dpkginfo_test" "dpkginfo_object" "dpkginfo_state" root (walk d.criteria) = ls
+    induction ls with
+    | nil => rfl
+    | cons l ls ih =>
+      simp only [List.flatMap_cons, List.filter_cons, ih]
+      unfold dpkgEmit
+      cases dpkgStateOk l.2.1 <;> simp
+
+theorem dpkgDefsToVulns_eq (root : OvalRoot) (proto : ProtoFn) :
+    ∀ (defs : List OvalDef),
+    (∀ d ∈ defs, ∀ c ∈ walk d.criteria, leafOk "dpkginfo_test" "dpkginfo_object" "dpkginfo_state" root c = true) →
+    dpkgDefsToVulns root proto defs = some (defs.flatMap (dpkgDefSpec root proto))
+  | [], _ => rfl
+  | d :: ds, h => by
+    simp only [dpkgDefsToVulns, dpkgDef_eq root proto d (h d (List.mem_cons_self ..)),
+      dpkgDefsToVulns_eq root proto ds (fun d' hd' => h d' (List.mem_cons_of_mem _ hd'))]
+    simp
 
 end ClairModel.Feeds
